@@ -506,6 +506,9 @@ fn read_level(
             }
         }
         if t == b"--" {
+            if positionals.len() == 2 && is_multi(positionals[0]) && !is_multi(positionals[1]) {
+                *unspec = Some("low-index multiple positional combined with `--`");
+            }
             if c.has(Setting::AllowMissingPositional) {
                 *unspec = Some("allow_missing_positional combined with `--`");
             }
@@ -711,6 +714,39 @@ fn read_level(
                     SubFound::None => {}
                 }
             }
+        }
+        if positionals.len() == 2 && is_multi(positionals[0]) && !is_multi(positionals[1]) && positionals[1].required {
+            // "low index multiple": `<files>... <target>` — the multi-value positional takes every
+            // value of the run but the last, which is the required final positional
+            if lv.occs.iter().any(|o| o.how == How::Pos) {
+                *unspec = Some("low-index multiple positional with more than one run of values");
+            }
+            let mut n = 0;
+            while i + n < argv.len() {
+                let t2 = &argv[i + n];
+                let is_sub = std::str::from_utf8(t2).map(|s| !matches!(find_sub(c, &inh, s), SubFound::None)).unwrap_or(false);
+                if flag_shaped(t2) || t2 == b"--" || is_sub {
+                    break;
+                }
+                n += 1;
+            }
+            if n < 2 {
+                *unspec = Some("low-index multiple positional with a single value");
+                n = n.max(1);
+            }
+            for k in 0..n {
+                let target = if k + 1 == n && n >= 2 { 1 } else { 0 };
+                let a = positionals[target];
+                if target == 0 && k > 0 {
+                    let o = lv.occs.len() - 1;
+                    lv.occs[o].raw.push(argv[i + k].clone());
+                } else {
+                    lv.occs.push(Occ { id: a.id.clone(), values: vec![], raw: vec![argv[i + k].clone()], key: a.id.clone(), how: How::Pos, at: i + k, trailing: false });
+                }
+            }
+            pos_i = 2;
+            i += n;
+            continue;
         }
         if c.has(Setting::AllowMissingPositional) && positionals.len() == 2 && pos_i == 0 && !is_multi(positionals[0]) && !is_multi(positionals[1]) {
             // documented: `prog [optional] <required>` may be called as `prog <required>`: a single
